@@ -54,10 +54,26 @@ def gen_source_unit(sc, sidecar_path, repo):
         raise UnitError('anchor', str(e))
     sk = rxprep.Skeleton()
     sk_problems = []
-    # the fn body must be just the create call (no other statements that could emit)
+    cells = sc.get('cells', {})
+    for c in cells:
+        sk.cells[c] = ('', 0)
+    # the fn body must be just the create call (no other statements that could emit), unless the sidecar says that captured state
+    # is prepared first (`allow_outer_lets`)
     stmts = rxprep.split_statements(body.kids)
-    if len(stmts) != 1:
+    if len(stmts) != 1 and not sc.get('allow_outer_lets'):
         sk_problems.append('fn %s has statements besides Observable::create(..)' % sc['fn'])
+    if sc.get('allow_outer_lets'):
+        for st in stmts[:-1]:
+            a = rxprep._alias(st) if st and st[0].is_id('let') else None
+            txt = src[st[0].start:st[-1].end]
+            if not (st and st[0].is_id('let') and re.fullmatch(r'let\s+\w+\s*=\s*Arc::clone\(&self\.\w+\)', re.sub(r'\s+', ' ', txt).strip().replace('( &', '(&'))):
+                sk_problems.append('unrecognised statement before Observable::create: `%s`' % txt)
+    if 'only_stmt' in sc:
+        inner = rxprep.split_statements(cl.body[0].kids) if len(cl.body) == 1 and cl.body[0].is_group('{') else []
+        k = sc['only_stmt']
+        if k >= len(inner):
+            raise UnitError('anchor', 'create-closure has no statement #%d' % k)
+        cl = rxprep.Closure(cl.toks, cl.params, inner[k], cl.is_move)
     captures = sc.get('captures', {})
     try:
         ex = rxprep.rewrite_body(cl, sk, src, op, captures, {})
@@ -65,7 +81,7 @@ def gen_source_unit(sc, sidecar_path, repo):
         raise UnitError('not_extractable', '%s: %s' % (op, e))
     pname = ex.params[0][0]
     tout = sc.get('out', 'Item')
-    params = ['%s: %s' % (c, t) for c, t in captures.items()] + ['%s: &mut ObsModel<%s>' % (pname, tout)]
+    params = ['%s: &mut %s' % (c, t) for c, t in cells.items()] + ['%s: %s' % (c, t) for c, t in captures.items()] + ['%s: &mut ObsModel<%s>' % (pname, tout)]
     def subst(t):
         return t.replace('$s', pname)
     req = ['old(%s).wf()' % pname] + [subst(x) for x in sc.get('requires', [])]
@@ -284,8 +300,95 @@ def gen_multi_unit(sc, sidecar_path, repo):
             'fn_names': fn_names, 'twin_names': [m['fn'] + '_twin' for m in meta if not m['fn'].endswith('_c06')]}
 
 
+def gen_method_unit(sc, sidecar_path, repo):
+    """`&self` methods lifted whole (R6): `fn NAME(&self, params..)` of `impl TYPE` becomes `fn(self_: &mut MODEL, params..)` with
+         self.FIELD.write().unwrap() -> (&mut self_.FIELD)      self.FIELD.read().unwrap() -> (&self_.FIELD)
+         self.F.METHOD(..) for F in `flatten`  ->  self_.F__METHOD(..)   (a method of the composite model, which can therefore
+                                                    state in its `requires` what the OTHER fields must already hold at that moment)
+       several methods of one type can be listed in one sidecar ([[method]])."""
+    import rxlex
+    op = sc['op']
+    src_path = os.path.join(repo, sc['file'])
+    if not os.path.exists(src_path):
+        raise UnitError('anchor', 'file %s missing' % sc['file'])
+    src = open(src_path).read()
+    toks = rxprep.strip_test_mods(rxprep.tree(src))
+    fns, twins, meta, sk_problems = [], [], [], []
+    model = sc['model']
+    flatten = sc.get('flatten', [])
+    fields = sc.get('fields', [])
+    for m in sc['method']:
+        try:
+            body, hdr = rxprep.find_fn(toks, m['fn'], sc['impl'])
+        except (AnchorLost, LexError) as e:
+            raise UnitError('anchor', str(e))
+        start, end = body.start, body.end
+        reps = []
+        def scan(ts):
+            i = 0
+            while i < len(ts):
+                t = ts[i]
+                if t.kind == 'group':
+                    scan(t.kids)
+                elif t.is_p('|') or t.is_id('move'):
+                    raise UnitError('not_extractable', '%s::%s contains a closure' % (sc['impl'], m['fn']))
+                elif t.is_id('self'):
+                    jw = rxprep.match_seq(ts, i, ['self', '.', 'ident', '.', 'write', '()', '.', 'unwrap', '()'])
+                    jr = rxprep.match_seq(ts, i, ['self', '.', 'ident', '.', 'read', '()', '.', 'unwrap', '()'])
+                    jf = rxprep.match_seq(ts, i, ['self', '.', 'ident', '.', 'ident', '(…)'])
+                    if jw > 0 and ts[i + 2].text in fields:
+                        reps.append((t.start, ts[jw - 1].end, '(&mut self_.%s)' % ts[i + 2].text)); i = jw; continue
+                    if jr > 0 and ts[i + 2].text in fields:
+                        reps.append((t.start, ts[jr - 1].end, '(&self_.%s)' % ts[i + 2].text)); i = jr; continue
+                    if jf > 0 and ts[i + 2].text in flatten:
+                        reps.append((t.start, ts[i + 4].end, 'self_.%s__%s' % (ts[i + 2].text, ts[i + 4].text)))
+                        scan(ts[i + 5].kids)
+                        i = jf; continue
+                    raise UnitError('not_extractable', '%s::%s uses self other than through a listed field' % (sc['impl'], m['fn']))
+                i += 1
+        scan(body.kids)
+        text = src[start:end]
+        for s_, e_, new in sorted(reps, reverse=True):
+            text = text[:s_ - start] + new + text[e_ - start:]
+        import hashlib
+        sha = hashlib.sha256(src[start:end].encode()).hexdigest()
+        # parameters after &self, by position
+        pg = next((t for t in hdr if t.is_group('(')), None)
+        pnames = []
+        if pg is not None:
+            for part in rxprep.split_commas(pg.kids):
+                if part and part[0].kind == 'ident' and not part[0].is_id('self') and any(t.is_p(':') for t in part):
+                    pnames.append(part[0].text)
+        def subst(t):
+            for k in range(len(pnames), 0, -1):
+                t = t.replace('$%d' % k, pnames[k - 1])
+            return t
+        ptypes = m.get('param_types', [])
+        params = ['self_: &mut %s' % model] + ['%s: %s' % (n, ptypes[k]) for k, n in enumerate(pnames)]
+        req = [subst(x) for x in m.get('requires', [])]
+        ens = [subst(x) for x in m.get('ensures', [])]
+        fn_name = '%s_%s' % (op, m['fn'])
+        header = '// extracted method %s::%s: %s chars %d..%d (line %d) sha256=%s\n// replacements: %s\n' % (
+            sc['impl'], m['fn'], sc['file'], start, end, rxprep.line_of(src, start), sha, json.dumps([(src[a:b], n) for a, b, n in sorted(reps)]))
+        f = header + 'fn %s(%s)\n    requires\n%s    ensures\n%s{\n    let _unit: () = /*BEGIN-EXTRACTED*/ %s /*END-EXTRACTED*/;\n%s}\n' % (
+            fn_name, ', '.join(params), _fmt_list(req), _fmt_list(ens), text, ('    proof { %s }\n' % subst(m['proof'])) if m.get('proof') else '')
+        fns.append(f)
+        twins.append('fn %s_twin(%s)\n    requires\n%s    ensures false,\n{\n}\n' % (fn_name, ', '.join(params), _fmt_list(req)))
+        meta.append({'fn': fn_name, 'file': sc['file'], 'line': rxprep.line_of(src, start), 'span': [start, end], 'sha256': sha,
+                     'replacements': [(src[a:b], n) for a, b, n in sorted(reps)], 'loops': 0})
+    prelude = open(os.path.join(VERIF, 'models', 'prelude.rs')).read()
+    text = prelude + '\nverus! {\n// ---- specification (contracts/%s) ----\n%s\n// ---- extracted from /repo ----\n%s\n} // verus!\nfn main() {}\n' % (
+        os.path.basename(sidecar_path), sc.get('spec', ''), '\n'.join(fns))
+    twin_text = prelude + '\nverus! {\n%s\n%s\n} // verus!\nfn main() {}\n' % (sc.get('spec', ''), '\n'.join(twins))
+    return {'op': op, 'text': text, 'twins': twin_text, 'facts': {}, 'skeleton_problems': sk_problems, 'outer_cells': [],
+            'extracted': meta, 'props': sc.get('props', []), 'known_fail': {}, 'fn_names': [m_['fn'] for m_ in meta],
+            'twin_names': [m_['fn'] + '_twin' for m_ in meta]}
+
+
 def gen_unit(sidecar_path: str, repo: str) -> dict:
     sc = load_sidecar(sidecar_path)
+    if sc.get('kind') == 'method':
+        return gen_method_unit(sc, sidecar_path, repo)
     if sc.get('kind') == 'source':
         return gen_source_unit(sc, sidecar_path, repo)
     if sc.get('kind') == 'multi':
